@@ -499,6 +499,32 @@ func (r *Runner) Run(s Scenario) uint64 {
 				}
 			}
 			// downbefore / never: the node was down before the call was issued
+		case "flap":
+			// the stopped node comes back, the library re-creates the stream (the
+			// receiver's reconnect loop), and the node is stopped again
+			if err := e.Server(st.N).Start(); err != nil {
+				stuck = true
+				break
+			}
+			node := e.Node(st.N).RawNode
+			up := false
+			for i := 0; i < 300 && !up; i++ {
+				gorums.VerifRedialNow(node)
+				up = tr.Await(pos, 10*time.Millisecond, func(ev vtrace.Event) bool {
+					return ev.Ev == "ReconNewStream" && int(ev.Node) == st.N && ev.Bool("ok")
+				}) >= 0
+			}
+			if !up {
+				stuck = true
+				break
+			}
+			// the receiver reads from the new stream
+			tr.Await(pos, SyncTimeout, func(ev vtrace.Event) bool { return ev.Ev == "RecvWait" && int(ev.Node) == st.N })
+			pos2 := tr.Len()
+			e.Server(st.N).Stop()
+			tr.Await(pos2, SyncTimeout, func(ev vtrace.Event) bool { return ev.Ev == "CancelPending" && int(ev.Node) == st.N })
+			time.Sleep(2 * time.Millisecond)
+			tr.Emit("NodeFlap", uint32(st.N), tok)
 		case "r":
 			if r.awaitTok(tok, from, func(ev vtrace.Event) bool { return ev.Ev == "HStart" && int(ev.Node) == st.N }) < 0 {
 				stuck = true
